@@ -24,14 +24,19 @@ from bqskit.ir.gates.barrier import BarrierPlaceholder
 from bqskit.ir.gates.circuitgate import CircuitGate
 from bqskit.ir.gates.constant.swap import SwapGate
 from bqskit.passes.mapping.apply import ApplyPlacement
+from bqskit.ir.gate import Gate
+from bqskit.passes.control.foreach import ForEachBlockPass
+from bqskit.passes.mapping.layout.pam import PAMLayoutPass
 from bqskit.passes.mapping.layout.sabre import GeneralizedSabreLayoutPass
 from bqskit.passes.mapping.placement import static as _static_mod
 from bqskit.passes.mapping.placement.greedy import GreedyPlacementPass
 from bqskit.passes.mapping.placement.static import StaticPlacementPass
 from bqskit.passes.mapping.placement.trivial import TrivialPlacementPass
+from bqskit.passes.mapping.routing.pam import PAMRoutingPass
 from bqskit.passes.mapping.routing.sabre import GeneralizedSabreRoutingPass
 from bqskit.passes.mapping.setmodel import SetModelPass
 from bqskit.qis.graph import CouplingGraph
+from bqskit.qis.unitary.unitarymatrix import UnitaryMatrix
 from vf import rt
 from vf.circ_oracle import TG, _flat_op, flat_of
 
@@ -186,6 +191,62 @@ def injective_into(xs: Any, k: int, m: int) -> bool:
 # the wire oracle
 
 
+class NTG(TG):
+    """Tagged gate for the PAM obligations: PAMRoutingPass stores `op.get_unitary()` of every routed
+    block in its out-data (never used by the passes under test), so the tag needs *a* matrix: identity."""
+
+    def get_unitary(self, params: Any = []) -> Any:
+        return UnitaryMatrix.identity(2 ** self._num_qudits, [2] * self._num_qudits)
+
+
+class PG(Gate):
+    """Harness stand-in for one pre-synthesised permutation-aware version of the input operation `orig`.
+
+    Contract taken from the producer EmbedAllPermutationsPass (embed.py): the circuit stored under the key
+    (pre, post) for local graph `gedges` has the unitary  Po^T . U . Pi  with Pi/Po =
+    PermutationMatrix.from_qudit_location(k, r, pre/post) ("output position i holds input wire loc[i]"), i.e.
+    the qudit entering on block wire pre[j] is acted on as U's j-th qudit and leaves on block wire post[j];
+    the circuit only couples block wires joined by an edge of `gedges`."""
+
+    def __init__(self, orig: int, k: int, pre: tuple, post: tuple, gedges: tuple, nparams: int) -> None:
+        self.orig, self.pre, self.post, self.gedges = orig, tuple(pre), tuple(post), tuple(gedges)
+        self._num_qudits = k
+        self._radixes = tuple([2] * k)
+        self._num_params = nparams
+        self._name = 'P%d%s%s' % (orig, ''.join(map(str, pre)), ''.join(map(str, post)))
+        self._qasm_name = 'p%d' % orig
+
+    def get_unitary(self, params: Any = []) -> Any:
+        return UnitaryMatrix.identity(2 ** self._num_qudits, [2] * self._num_qudits)
+
+    def _key(self) -> tuple:
+        return (self.orig, self._num_qudits, self.pre, self.post, self.gedges, self._num_params)
+
+    def __eq__(self, o: object) -> bool:
+        return isinstance(o, PG) and o._key() == self._key()
+
+    def __hash__(self) -> int:
+        return hash(('PG',) + self._key())
+
+    def __repr__(self) -> str:
+        return self._name
+
+
+def permuted_block(op: Any) -> tuple | None:
+    """(PG gate, params, physical qudit of every PG slot) when `op` is one of the injected permuted
+    versions (bare or wrapped in a CircuitGate by PAM's append_circuit(..., as_circuit_gate=True))."""
+    g = op.gate
+    loc = [int(q) for q in op.location]
+    if isinstance(g, PG):
+        return g, tuple(op.params), loc
+    if isinstance(g, CircuitGate):
+        inner = list(g._circuit)
+        if len(inner) == 1 and isinstance(inner[0].gate, PG):
+            iop = inner[0]
+            return iop.gate, tuple(op.params), [loc[w] for w in iop.location]
+    return None
+
+
 def exempt_from_coupling(op: Any) -> bool:
     g = op.gate
     if isinstance(g, BarrierPlaceholder):
@@ -217,6 +278,31 @@ def wire_check(inp: tuple, out: Circuit, init: list, final: list, m: int, adj: l
                 return 'swap-off-edge'
             lab[loc[0]], lab[loc[1]] = lab[loc[1]], lab[loc[0]]
             continue
+        pb = permuted_block(op)
+        if pb is not None:
+            pg, params, slots = pb
+            for a, b in pg.gedges:
+                if slots[b] not in adj[slots[a]]:
+                    rt.log('permuted block synthesised for graph', pg.gedges, 'placed on', slots, ':', op)
+                    return 'op-disconnected'
+            if len(slots) >= 2 and not induced_connected(slots, adj):
+                return 'op-disconnected'
+            moved = []
+            for j in range(len(slots)):
+                lg = lab[slots[pg.pre[j]]]
+                if lg is None:
+                    rt.log('permuted block on a physical qudit holding no logical qudit:', op)
+                    return 'op-on-empty-qudit'
+                ent = ((pg.orig, j, params),)
+                if tuple(inp[lg][pos[lg]:pos[lg] + 1]) != ent:
+                    rt.log('logical qudit', lg, 'expects', inp[lg][pos[lg]:pos[lg] + 1], 'got', ent, 'from', op,
+                           'pre', pg.pre, 'post', pg.post)
+                    return 'program-order'
+                pos[lg] += 1
+                moved.append(lg)
+            for j, lg in enumerate(moved):
+                lab[slots[pg.post[j]]] = lg
+            continue
         if len(loc) >= 2 and not exempt_from_coupling(op) and not induced_connected(loc, adj):
             rt.log('operation on physically disconnected qudits:', op)
             return 'op-disconnected'
@@ -228,7 +314,7 @@ def wire_check(inp: tuple, out: Circuit, init: list, final: list, m: int, adj: l
             ent = tuple(_flat_op(op, j))
             if tuple(inp[lg][pos[lg]:pos[lg] + len(ent)]) != ent:
                 rt.log('logical qudit', lg, 'expects', inp[lg][pos[lg]:pos[lg] + len(ent)], 'got', ent, 'from', op)
-                return 'program-order'
+                return 'barrier-misplaced' if isinstance(op.gate, BarrierPlaceholder) else 'program-order'
             pos[lg] += len(ent)
     for lg in range(n):
         if pos[lg] != len(inp[lg]):
@@ -308,6 +394,14 @@ class ChoiceRouting(_ChoiceMixin, GeneralizedSabreRoutingPass):
     _phase_prefix = 'routing-'
 
 
+class ChoicePAMLayout(_ChoiceMixin, PAMLayoutPass):
+    _phase_prefix = 'layout-'
+
+
+class ChoicePAMRouting(_ChoiceMixin, PAMRoutingPass):
+    _phase_prefix = 'routing-'
+
+
 def run_cfg(circ_in: Circuit, inp: tuple, m: int, edges: list, adj: list[set], cfg: dict) -> str | None:
     """One run of the workflow; returns a fingerprint on violation."""
     n = circ_in.num_qudits
@@ -344,6 +438,8 @@ def run_cfg(circ_in: Circuit, inp: tuple, m: int, edges: list, adj: list[set], c
             return 'placement:disconnected'
         if not pl_conn:
             rt.log('note: StaticPlacementPass left a disconnected placement', placement0)
+            if rt.SHARD.get('strict_static'):
+                return 'placement:static-disconnected'
         if cfg.get('layout', True):
             stage = 'layout'
             try:
@@ -391,14 +487,137 @@ def run_cfg(circ_in: Circuit, inp: tuple, m: int, edges: list, adj: list[set], c
     return None
 
 
+_INJ_CACHE: dict = {}
+
+
+def connected_graphs(k: int) -> list:
+    """Edge lists of all connected labelled graphs on k vertices (k <= 3 here)."""
+    pairs = [(i, j) for i in range(k) for j in range(i + 1, k)]
+    out = []
+    for mask in range(1 << len(pairs)):
+        edges = [pr for b, pr in enumerate(pairs) if (mask >> b) & 1]
+        if induced_connected(list(range(k)), adjacency(k, edges)):
+            out.append(edges)
+    return out
+
+
+def perms_of(k: int) -> list:
+    import itertools
+    return [tuple(p) for p in itertools.permutations(range(k))]
+
+
+def inject_perm_data(circ: Circuit, data: PassData, mode: str) -> str | None:
+    """What [QuickPartitioner, ForEachBlockPass(EmbedAllPermutationsPass)] leaves in the pass data, with
+    tagged stand-ins (PG) instead of synthesised circuits: for every operation of the circuit, for every
+    connected local graph, one circuit per (pre, post) pair of the mode ('in': post = id, 'out': pre = id,
+    'both')."""
+    if mode in _INJ_CACHE:
+        data[ForEachBlockPass.key] = [list(_INJ_CACHE[mode])]
+        return None
+    blocks = []
+    for cycle, op in circ.operations_with_cycles():
+        g = op.gate
+        if isinstance(g, BarrierPlaceholder):
+            continue
+        if not isinstance(g, NTG):
+            return 'harness:unsupported-op'
+        k = op.num_qudits
+        ident = tuple(range(k))
+        pd: dict = {}
+        for gedges in connected_graphs(k):
+            table = {}
+            for pre in (perms_of(k) if mode in ('in', 'both') else [ident]):
+                for post in (perms_of(k) if mode in ('out', 'both') else [ident]):
+                    c = Circuit(k)
+                    c.append_gate(PG(g.tag, k, pre, post, tuple(gedges), g.num_params), list(range(k)), op.params)
+                    table[(pre, post)] = c
+            pd[CouplingGraph(gedges, k)] = table
+        blocks.append({'point': (cycle, op.location[0]), 'permutation_data': pd})
+    from bqskit.ir.point import CircuitPoint
+    for b in blocks:
+        b['point'] = CircuitPoint(*b['point'])
+    _INJ_CACHE[mode] = blocks          # the passes only read it; same input circuit for all cfgs of a path
+    data[ForEachBlockPass.key] = [list(blocks)]
+    return None
+
+
+def run_pam_cfg(circ_in: Circuit, inp: tuple, m: int, edges: list, adj: list[set], cfg: dict) -> str | None:
+    """[SetModelPass, placement, (perm-data injection), PAMLayoutPass, PAMRoutingPass, ApplyPlacement]."""
+    n = circ_in.num_qudits
+    circ = circ_in.copy()
+    data = PassData(circ)
+    model = MachineModel(m, CouplingGraph(edges, m))
+    pl = cfg['pl']
+    kw = dict(decay_delta=float(cfg.get('decay', 0.001)), decay_reset_interval=int(cfg.get('dri', 5)),
+              extended_set_size=int(cfg.get('ext', 20)))
+    sym = cfg.get('sym', '')
+    Choices.active = tuple(x for x in sym.split(',') if x)
+    LayoutCls = ChoicePAMLayout if 'layout' in sym else PAMLayoutPass
+    RoutingCls = ChoicePAMRouting if 'routing' in sym else PAMRoutingPass
+    stage = 'setmodel'
+    try:
+        drive(SetModelPass(model), circ, data)
+        stage = 'placement'
+        try:
+            drive({'greedy': GreedyPlacementPass, 'trivial': TrivialPlacementPass}[pl](), circ, data)
+        except RuntimeError as e:
+            if pl == 'trivial' and not induced_connected(list(range(n)), adj):
+                return None
+            return 'placement:raised:' + type(e).__name__
+        placement0 = list(data.placement)
+        if not injective_into(placement0, n, m) or not induced_connected(placement0, adj):
+            return 'placement:invalid'
+        stage = 'inject'
+        fp = inject_perm_data(circ, data, cfg.get('perms', 'both'))
+        if fp is not None:
+            return fp
+        if cfg.get('layout', True):
+            stage = 'pam-layout'
+            drive(LayoutCls(total_passes=int(cfg.get('tp', 1)), gate_count_weight=float(cfg.get('gcw', 0.3)),
+                                **kw), circ, data)
+            if flat_of(circ) != inp or circ.num_qudits != n:
+                return 'pam-layout:modified-circuit'
+            if sorted(data.placement) != sorted(placement0) or not injective_into(data.placement, n, m):
+                return 'pam-layout:placement-not-a-permutation'
+            if list(data.initial_mapping) != list(range(n)) or list(data.final_mapping) != list(range(n)):
+                return 'pam-layout:touched-mappings'
+        placement1 = list(data.placement)
+        stage = 'pam-routing'
+        drive(RoutingCls(gate_count_weight=float(cfg.get('gcw', 0.1)), **kw), circ, data)
+        if list(data.placement) != placement1:
+            return 'pam-routing:changed-placement'
+        ladj = adjacency(n, [(a, b) for a in range(n) for b in range(a + 1, n)
+                             if placement1[b] in adj[placement1[a]]])
+        fp = wire_check(inp, circ, list(data.initial_mapping), list(data.final_mapping), n, ladj)
+        if fp is not None:
+            rt.log('after PAM routing:', list(circ), 'placement', placement1, 'initial', data.initial_mapping,
+                   'final', data.final_mapping)
+            return 'pam-routing:' + fp
+        stage = 'apply'
+        drive(ApplyPlacement(), circ, data)
+        fp = wire_check(inp, circ, list(data.initial_mapping), list(data.final_mapping), m, adj)
+        if fp is None and not (injective_into(data.placement, len(data.placement), m)
+                               and induced_connected(list(data.placement), adj)):
+            fp = 'placement-disconnected'
+        if fp is not None:
+            rt.log('after ApplyPlacement:', list(circ), 'placement(after layout)', placement1, 'initial',
+                   data.initial_mapping, 'final', data.final_mapping, 'placement', data.placement)
+            return 'pam-apply:' + fp
+    except Exception as e:  # noqa
+        rt.log('stage', stage, 'raised', repr(e))
+        return '%s:raised:%s' % (stage, type(e).__name__)
+    return None
+
+
 def run_all(circ: Circuit, m: int, edges: list, cfgs: list) -> str | None:
     inp = flat_of(circ)
     adj = adjacency(m, edges)
+    _INJ_CACHE.clear()
     for cfg in cfgs:
         Choices.i = 0
         Choices.taken = []
         Choices.ncands = []
-        fp = run_cfg(circ, inp, m, edges, adj, cfg)
+        fp = (run_pam_cfg if cfg.get('algo') == 'pam' else run_cfg)(circ, inp, m, edges, adj, cfg)
         if fp is not None:
             rt.log('machine: %d qudits, edges %s' % (m, edges))
             rt.log('input circuit:', list(circ), 'timelines', inp)
@@ -436,18 +655,20 @@ def decode_graph(m: int, ebits: list) -> list | None:
 #  1 TG on 1 qudit           2 TG on an ordered pair        3 TG on an ordered triple
 #  4 barrier on a pair        5 block [A(0,1) B(1)] on an ordered pair
 #  6 block [A(0) B(1)] (single-qudit gates only) on a pair   7 barrier on all qudits
-ARITY = {1: 1, 2: 2, 3: 3, 4: 2, 5: 2, 6: 2, 7: 0}
-ORDERED = {1: True, 2: True, 3: True, 4: False, 5: True, 6: False, 7: True}
+#  8 TG on a sorted pair      9 TG on a sorted triple   (PAM: blocks made by partitioners have sorted locations)
+ARITY = {1: 1, 2: 2, 3: 3, 4: 2, 5: 2, 6: 2, 7: 0, 8: 2, 9: 3}
+ORDERED = {1: True, 2: True, 3: True, 4: False, 5: True, 6: False, 7: True, 8: False, 9: False}
 
 
 def _tg(tags: list, ar: int) -> tuple:
     tags[0] += 1
-    return TG(tags[0], ar, (), 1), [tags[0] / 8.0]
+    cls = NTG if rt.SHARD.get('pam') else TG
+    return cls(tags[0], ar, (), 1), [tags[0] / 8.0]
 
 
 def add_op(circ: Circuit, code: int, loc: list, tags: list) -> None:
     n = circ.num_qudits
-    if code in (1, 2, 3):
+    if code in (1, 2, 3, 8, 9):
         g, ps = _tg(tags, len(loc))
         circ.append_gate(g, loc, ps)
     elif code == 4:
@@ -485,9 +706,9 @@ def decode_ops(n: int, nops: int, xs: list) -> list:
             if ORDERED[code]:
                 cands = [q for q in range(n) if q not in loc]
             elif j == 0:
-                cands = list(range(n - 1))
+                cands = list(range(n - ARITY[code] + 1))
             else:
-                cands = list(range(loc[-1] + 1, n))
+                cands = list(range(loc[-1] + 1, n - (ARITY[code] - 1 - j)))
             loc.append(cands[rt.P(qs[j], 0, len(cands) - 1)])
         spec.append((code, loc))
     return spec
@@ -611,6 +832,20 @@ def cfg_list(kind: str) -> list:
         out.append({'pl': 'greedy', 'layout': False, 'ext': 20, 'decay': 0.001})     # routing without layout
         out.append({'pl': 'static', 'layout': False, 'ext': 0, 'decay': 0.0})
         return out
+    if kind == 'pam-quick':
+        P = {'algo': 'pam'}
+        return [dict(P, pl='greedy', tp=1, perms='both', ext=20, decay=0.001),
+                dict(P, pl='greedy', tp=2, perms='out', ext=0, decay=0.0),
+                dict(P, pl='trivial', tp=1, perms='in', ext=1, decay=0.5, dri=1, gcw=1.0),
+                dict(P, pl='trivial', tp=1, perms='both', ext=20, gcw=0.0),
+                dict(P, pl='greedy', layout=False, perms='both', ext=20),
+                dict(P, pl='trivial', layout=False, perms='out', ext=0, decay=0.0)]
+    if kind == 'pam-full':
+        P = {'algo': 'pam'}
+        return [dict(P, pl=pl, tp=tp, perms=pm, ext=ext, decay=d, gcw=g)
+                for pl in ('greedy', 'trivial') for tp in (1, 2) for pm in ('both', 'out', 'in')
+                for (ext, d, g) in ((20, 0.001, 0.1), (0, 0.0, 1.0), (1, 0.5, 0.0))] + [
+            dict(P, pl=pl, layout=False, perms=pm, ext=20) for pl in ('greedy', 'trivial') for pm in ('both', 'out', 'in')]
     raise AssertionError(kind)
 
 
@@ -631,7 +866,10 @@ def obligations(tier: str) -> list[dict]:
         split = 'op0': kind and first qudit of the first operation are fixed per shard;
         split = 'op0e': both (kind/first qudit of the first operation and one edge bit)."""
         cn = ''.join(map(str, codes))
-        nm = 'sabre/n%d/m%d/ops%d/codes%s/%s' % (n, m, nops, cn, cfgs)
+        algo = 'pam' if cfgs.startswith('pam') else 'sabre'
+        if algo == 'pam':
+            kw['pam'] = 1
+        nm = '%s/n%d/m%d/ops%d/codes%s/%s' % (algo, n, m, nops, cn, cfgs)
         if 'edges' in kw:
             nm += '/graph' + ''.join('%d%d' % tuple(e) + '-' for e in kw['edges'])[:-1]
         func = 'route4' if m <= 4 and nops <= 3 else 'route'
@@ -639,7 +877,7 @@ def obligations(tier: str) -> list[dict]:
         if split in ('op0', 'op0e'):
             menu = [k for k in codes if ARITY[k] <= n and not (k == 7 and n < 2)]
             for ci, code in enumerate(menu):
-                nq = 1 if ARITY[code] == 0 else (n if ORDERED[code] else n - 1)
+                nq = 1 if ARITY[code] == 0 else (n if ORDERED[code] else n - ARITY[code] + 1)
                 for q in range(nq):
                     if split == 'op0':
                         ob('%s/op0=%d.%d' % (nm, code, q), func, timeout, xfix={'0': ci, '1': q}, **base)
@@ -665,6 +903,9 @@ def obligations(tier: str) -> list[dict]:
         n = 1 + max(q for _, loc in ops for q in loc)
         sh = dict(n=max(n, 4), m=1 + max(max(e) for e in edges), edges=edges, K=NCHOICE, nops=nsym, codes=codes,
                   ops=ops, cfgs=[c], nofast=1)
+        if c.get('algo') == 'pam':
+            sh['pam'] = 1
+            name = 'pam-' + name
         combos: list = [[]]
         for k in split:
             combos = [x + [v] for x in combos for v in range(k)]
@@ -696,26 +937,60 @@ def obligations(tier: str) -> list[dict]:
         esc('layout-bwd/line4/T(1,2)T(0,3)', T, [[2, [1, 2]], [2, [0, 3]]], 'layout-bwd', LINE4, fixed=4,
             witness=True)
         esc('routing-fwd/line4/T(0,1,3)', T, [[3, [0, 1, 3]]], 'routing-fwd', LINE4, fixed=13, witness=True)
+        PQ = 'pam-quick'
+        fam(3, 3, 2, [1, 8, 9], PQ, T)
+        fam(3, 4, 2, [8, 9], PQ, T)
+        fam(3, 4, 3, [8], PQ, T)
+        fam(4, 4, 2, [8], PQ, T)
+        fam(4, 4, 3, [8], PQ, T, edges=LINE4)
+        fam(3, 4, 2, [9, 4, 7], PQ, T)                     # barriers
+        esc('routing-fwd/line4/T(0,3)', T, [[8, [0, 3]]], 'routing-fwd', LINE4, fixed=6, witness=True, algo='pam',
+            perms='both')
     else:
         F = 'full'
-        T = 2400
+        T = 3000
+        LINE5 = [[0, 1], [1, 2], [2, 3], [3, 4]]
         fam(2, 2, 3, ALL, F, T)
-        fam(2, 5, 2, [1, 2, 5, 7], F, T, split=2)
-        fam(3, 3, 3, ALL, F, T, split='op0')
+        fam(2, 5, 2, [2, 5], F, T, split=1)
+        fam(3, 3, 3, [2, 3, 5], F, T, split='op0')
         fam(3, 4, 2, ALL, F, T, split='op0')
-        fam(3, 4, 3, [2, 3, 5], F, T, split='op0e')
-        fam(3, 5, 2, [2, 3, 5], F, T, split='op0')
-        fam(4, 4, 2, ALL, F, T, split='op0')
-        fam(4, 4, 3, [2], F, T, split='op0e', max_edges=4)
-        fam(4, 5, 2, [2], F, T, split='op0')
-        fam(4, 5, 4, [2], F, T, split='op0', edges=[[0, 1], [1, 2], [2, 3], [3, 4]])
+        fam(3, 4, 3, [2, 3], F, T, split='op0e')
+        fam(3, 5, 1, ALL, F, T, split=2)
+        fam(3, 5, 2, [2], F, T, split='op0')
+        fam(4, 4, 2, [2, 3], F, T, split='op0')
+        fam(4, 4, 2, [1, 4, 5, 6, 7], F, T, split=1)
+        fam(4, 4, 3, [2], F, T, split='op0', max_edges=3)
+        fam(4, 4, 4, [2], F, T, split='op0', edges=LINE4)
+        fam(4, 5, 2, [2], F, T, split='op0', max_edges=4)
+        fam(4, 5, 3, [2], F, T, edges=LINE5)
         for g in ([0, 3], [0, 2], [1, 3], [3, 0], [2, 0], [3, 1]):
             nm = 'T(%d,%d)' % tuple(g)
-            esc('routing-fwd/line4/' + nm, T, [[2, g]], 'routing-fwd', LINE4, split=[2, 3, 2, 3])
-            esc('layout-fwd/line4/' + nm, T, [[2, g]], 'layout-fwd', LINE4, split=[2, 3, 2, 3])
-        esc('layout-bwd/line4/T(1,2)T(0,3)', T, [[2, [1, 2]], [2, [0, 3]]], 'layout-bwd', LINE4, split=[2, 3, 2, 3])
-        esc('layout-bwd/line4/T(0,1)T(1,3)', T, [[2, [0, 1]], [2, [1, 3]]], 'layout-bwd', LINE4, split=[2, 3, 2, 3])
-        esc('layout-bwd/line4/T(0,3)T(1,2)/tp2', T, [[2, [0, 3]], [2, [1, 2]]], 'layout-bwd', LINE4, split=[2, 3, 2, 3], tp=2)
-        esc('routing-fwd/line4/T(0,1,3)', T, [[3, [0, 1, 3]]], 'routing-fwd', LINE4, fixed=9, split=[3])
-        esc('routing-fwd/line4/T(0,3)+sym', T, [[2, [0, 3]]], 'routing-fwd', LINE4, fixed=10, nsym=1)
+            esc('routing-fwd/line4/' + nm, T, [[2, g]], 'routing-fwd', LINE4, split=[2, 3])
+        for g in ([0, 3], [2, 0], [3, 1]):
+            nm = 'T(%d,%d)' % tuple(g)
+            esc('layout-fwd/line4/' + nm, T, [[2, g]], 'layout-fwd', LINE4, split=[2, 3])
+        esc('layout-bwd/line4/T(1,2)T(0,3)', T, [[2, [1, 2]], [2, [0, 3]]], 'layout-bwd', LINE4, split=[2, 3])
+        esc('layout-bwd/line4/T(0,1)T(1,3)', T, [[2, [0, 1]], [2, [1, 3]]], 'layout-bwd', LINE4, split=[2, 3])
+        esc('layout-bwd/line4/T(0,3)T(1,2)/tp2', T, [[2, [0, 3]], [2, [1, 2]]], 'layout-bwd', LINE4,
+            split=[2, 3], tp=2)
+        esc('routing-fwd/line4/T(0,1,3)', T, [[3, [0, 1, 3]]], 'routing-fwd', LINE4, fixed=9, split=[3],
+            witness=True)
+        esc('routing-fwd/line4/T(3,0,2)', T, [[3, [3, 0, 2]]], 'routing-fwd', LINE4, fixed=9, split=[3])
+        esc('layout-fwd/line4/T(0,1,3)', T, [[3, [0, 1, 3]]], 'layout-fwd', LINE4, fixed=11)
+        esc('routing-fwd/line4/T(0,3)+T(sym)', T, [[2, [0, 3]]], 'routing-fwd', LINE4, fixed=12, nsym=1)
+        PF = 'pam-full'
+        fam(3, 3, 3, [1, 8, 9], PF, T)
+        fam(3, 4, 3, [8, 9], PF, T, split=2)
+        fam(3, 5, 2, [8, 9], PF, T, split=2)
+        fam(4, 4, 2, [1, 8, 9], PF, T, split='op0')
+        fam(4, 4, 3, [8], PF, T, split='op0', max_edges=3)
+        fam(4, 5, 2, [8], PF, T, split='op0', max_edges=4)
+        fam(3, 4, 2, [8, 9, 4, 7], PF, T)                   # barriers
+        fam(4, 4, 2, [8, 4], PF, T, edges=LINE4)             # barriers
+        esc('routing-fwd/line4/T(0,3)', T, [[8, [0, 3]]], 'routing-fwd', LINE4, split=[2, 3], algo='pam',
+            perms='both')
+        esc('layout-fwd/line4/T(0,3)', T, [[8, [0, 3]]], 'layout-fwd', LINE4, split=[2, 3], algo='pam',
+            perms='out')
+        esc('routing-fwd/line4/T(0,1,3)', T, [[9, [0, 1, 3]]], 'routing-fwd', LINE4, fixed=11, algo='pam',
+            perms='both')
     return obs
